@@ -43,7 +43,8 @@ Theorem C11_no_backward_effect :
   forall (c : config) (h h' : history) (pt : point) (o o' : obs),
     agree_before pt h h' ->
     In (pt, o) (fst (run c h)) -> In (pt, o') (fst (run c h')) ->
-    (forall n, get (o_env o) n = get (o_env o') n) /\ o_cwd o = o_cwd o' /\ o_timeout o = o_timeout o'.
+    (o_role o = RProcess -> o_role o' = RProcess -> forall n, get (o_env o) n = get (o_env o') n) /\
+    o_cwd o = o_cwd o' /\ o_timeout o = o_timeout o'.
 Proof. exact no_backward_effect. Qed.
 Print Assumptions C11_no_backward_effect.
 
@@ -57,10 +58,12 @@ Theorem C11_no_backward_effect_trace :
 Proof. exact no_backward_effect_trace. Qed.
 Print Assumptions C11_no_backward_effect_trace.
 
-(** The process of the act phase sees the act set, every other process the non-act set. *)
+(** The process of the act phase sees the act set, every other process the non-act set
+    ([RProcess]: every process but the program computing the VALUE of an env instruction, whose
+    environment is outside this property - see [C11_value_program_timeout_cwd]). *)
 Theorem C11_act_sees_act_set_others_nonact :
   forall (c : config) (h : history) (pt : point) (o : obs),
-    In (pt, o) (fst (run c h)) ->
+    In (pt, o) (fst (run c h)) -> o_role o = RProcess ->
     exists ss, spec_before c h pt = Some ss /\
                forall n, get (o_env o) n = match pt with PtAct => ss_act ss n | PtInstr _ _ => ss_nonact ss n end.
 Proof. exact act_sees_act_set_others_nonact. Qed.
@@ -134,6 +137,19 @@ Theorem C11_timeout_in_force_at_step :
 Proof. exact run_ops_timeout. Qed.
 Print Assumptions C11_timeout_in_force_at_step.
 
+(** The program that computes the VALUE of an env instruction ([env NAME = -stdout-from PROGRAM]; one
+    run per set being changed) is started in the current directory and under the timeout in force
+    at that instruction, like every other process ([spec_before] at the instruction's point).
+    This is the clause of [C11_refines] for observations with role [RValue k]; together with the
+    forward theorems it gives: a [timeout] / [cd] instruction takes effect for the value programs
+    of all later env instructions too. *)
+Theorem C11_value_program_timeout_cwd :
+  forall (c : config) (h : history) (pt : point) (o : obs),
+    In (pt, o) (fst (run c h)) ->
+    exists ss, spec_before c h pt = Some ss /\ o_cwd o = ss_cwd ss /\ o_timeout o = ss_timeout ss.
+Proof. exact value_program_timeout_cwd. Qed.
+Print Assumptions C11_value_program_timeout_cwd.
+
 (** cd forward: after a [cd] that resolved to [d], every process started later has current
     directory [d] until the next [cd] INSTRUCTION; [mid] may contain child processes changing
     their own directory ([OChildCd]) - they do not count. *)
@@ -191,19 +207,19 @@ Definition ex_hist : history :=
 
 Example C11_example :
   run ex_cfg ex_hist =
-  ([ (PtInstr PSetup 0, Obs [(ex_A, [105])] sds_act (Some 60));
-     (PtInstr PSetup 7, Obs [(ex_A, [97; 48]); (ex_C, [97; 48; 33])] (sds_act ++ [ex_d1]) (Some 7));
-     (PtAct, Obs [(ex_A, [97; 48]); (ex_B, [120; 60; 97; 48; 62])] (sds_act ++ [ex_d1]) (Some 7));
-     (PtInstr PBeforeAssert 2, Obs [(ex_C, [97; 48; 33])] (sds_act ++ [ex_d1]) (Some 7));
-     (PtInstr PAssert 0, Obs [(ex_C, [97; 48; 33])] (sds_act ++ [ex_d1]) (Some 7));
-     (PtInstr PCleanup 1, Obs [(ex_C, [97; 48; 33])] (sds_act ++ [ex_d1]) None) ], Done).
+  ([ (PtInstr PSetup 0, Obs [(ex_A, [105])] sds_act (Some 60) RProcess);
+     (PtInstr PSetup 7, Obs [(ex_A, [97; 48]); (ex_C, [97; 48; 33])] (sds_act ++ [ex_d1]) (Some 7) RProcess);
+     (PtAct, Obs [(ex_A, [97; 48]); (ex_B, [120; 60; 97; 48; 62])] (sds_act ++ [ex_d1]) (Some 7) RProcess);
+     (PtInstr PBeforeAssert 2, Obs [(ex_C, [97; 48; 33])] (sds_act ++ [ex_d1]) (Some 7) RProcess);
+     (PtInstr PAssert 0, Obs [(ex_C, [97; 48; 33])] (sds_act ++ [ex_d1]) (Some 7) RProcess);
+     (PtInstr PCleanup 1, Obs [(ex_C, [97; 48; 33])] (sds_act ++ [ex_d1]) None RProcess) ], Done).
 Proof. vm_compute. reflexivity. Qed.
 
 (** a failing [cd] (missing directory) in setup: the act phase and the assertions are not run,
     cleanup sees the settings in force at the failure *)
 Example C11_example_halt :
   run ex_cfg (History [OTimeout (Some 5); OCd RelCwd [[113]]; OTimeout (Some 9); OProbe] [OProbe] [OProbe] [OProbe]) =
-  ([ (PtInstr PCleanup 0, Obs [(ex_A, [105])] sds_act (Some 5)) ], Done).
+  ([ (PtInstr PCleanup 0, Obs [(ex_A, [105])] sds_act (Some 5) RProcess) ], Done).
 Proof. vm_compute. reflexivity. Qed.
 
 Example C11_example_expand :
@@ -225,4 +241,17 @@ Example C11_example_expand_corner_cases :
       [ [36; 65]; [36; 123]; [36; 123; 125]; [36; 123; 65; 45; 125]; [36; 123; 32; 65; 125]; [36; 123; 233; 125];
         [36; 118]; [118; 125]; [36; 123; 118]; [120; 121];
         [118; 118] ].
+Proof. vm_compute. reflexivity. Qed.
+
+(** value programs: in [setup] an env instruction without [-of] runs its program twice (act set
+    first), each run under the timeout and in the directory in force; [-of act] outside [setup]
+    runs it not at all *)
+Example C11_example_value_program :
+  run ex_cfg (History [OTimeout (Some 9); OEnv TAct (MSet ex_A [97]); OEnvProg TBoth ex_B [36; 123; 65; 125]; OProbe]
+                      [] [OTimeout None; OEnvProg TAct ex_C [99]; OEnvProg TNonAct ex_C [99]] []) =
+  ([ (PtInstr PSetup 2, Obs [(ex_A, [97])] sds_act (Some 9) (RValue 0));
+     (PtInstr PSetup 2, Obs [(ex_A, [105])] sds_act (Some 9) (RValue 1));
+     (PtInstr PSetup 3, Obs [(ex_A, [105]); (ex_B, [105])] sds_act (Some 9) RProcess);
+     (PtAct, Obs [(ex_A, [97]); (ex_B, [97])] sds_act (Some 9) RProcess);
+     (PtInstr PAssert 2, Obs [(ex_A, [105]); (ex_B, [105])] sds_act None (RValue 0)) ], Done).
 Proof. vm_compute. reflexivity. Qed.
